@@ -369,11 +369,13 @@ func tickerGen(c *Ctx) (genField string, callback *ssa.Function) {
 	}
 	var cb *ssa.Function
 	armChain = nil
+	armRecv = nil
 	for _, di := range deepInstrs(sch, 2) { // the timer may be armed by a helper of schedule (t.arm(next, t.gen))
 		if call, ok := di.in.(*ssa.Call); ok && isCallTo(&call.Call, "time", "", "AfterFunc") && len(call.Call.Args) == 2 {
-			if f, _ := funcAndReceiver(argOf(call.Call.Args[1], di.calls)); f != nil {
+			if f, rv := funcAndReceiver(argOf(call.Call.Args[1], di.calls)); f != nil {
 				cb = f
 				armChain = di.calls
+				armRecv = rv
 			}
 		}
 	}
@@ -413,6 +415,78 @@ func tickerIntField(v ssa.Value) string {
 // set by tickerGen.
 var armChain []*ssa.Call
 
+// armRecv: when the callback is a method value (time.AfterFunc(next, pending.fire)), the receiver it is bound to, in the arming
+// frame; set by tickerGen.
+var armRecv ssa.Value
+
+// recvFieldInArmFrame: v reads field F of the callback's (value) receiver; the result is the value the arming frame stored into
+// that field of the object the method value was taken from (pending := pendingTick{ticker: t, gen: t.gen}).
+func recvFieldInArmFrame(v ssa.Value) ssa.Value {
+	if armRecv == nil {
+		return nil
+	}
+	field := ""
+	isRecv := func(x ssa.Value) bool {
+		p, ok := x.(*ssa.Parameter)
+		if ok {
+			return len(p.Parent().Params) > 0 && p.Parent().Params[0] == p && p.Parent().Signature.Recv() != nil
+		}
+		// the receiver spilled into a local because its address is taken
+		if al, ok := x.(*ssa.Alloc); ok {
+			sts := storesTo(al)
+			if len(sts) == 1 {
+				if pp, ok := sts[0].Val.(*ssa.Parameter); ok {
+					return len(pp.Parent().Params) > 0 && pp.Parent().Params[0] == pp && pp.Parent().Signature.Recv() != nil
+				}
+			}
+		}
+		return false
+	}
+	switch x := v.(type) {
+	case *ssa.Field:
+		if isRecv(x.X) {
+			field = fieldName(x.X.Type(), x.Field)
+		}
+	case *ssa.UnOp:
+		if fa, ok := x.X.(*ssa.FieldAddr); ok && x.Op == token.MUL && isRecv(fa.X) {
+			field = fieldName(fa.X.Type(), fa.Field)
+		}
+	}
+	if field == "" {
+		return nil
+	}
+	if in, ok := v.(ssa.Instruction); ok && armRecv != nil {
+		if ar, ok := armRecv.(ssa.Instruction); ok && in.Parent() == ar.Parent() {
+			return nil // a read in the arming frame itself, not in the callback
+		}
+	}
+	// the object: a local of the arming frame (loaded when the method value is taken, or its address for a pointer receiver)
+	var obj *ssa.Alloc
+	switch r := armRecv.(type) {
+	case *ssa.UnOp:
+		obj, _ = r.X.(*ssa.Alloc)
+	case *ssa.Alloc:
+		obj = r
+	}
+	if obj == nil {
+		return nil
+	}
+	var val ssa.Value
+	n := 0
+	instrs(obj.Parent(), func(_ *ssa.BasicBlock, _ int, in ssa.Instruction) {
+		if st, ok := in.(*ssa.Store); ok {
+			if fa, ok := st.Addr.(*ssa.FieldAddr); ok && fa.X == ssa.Value(obj) && fieldName(fa.X.Type(), fa.Field) == field {
+				val = st.Val
+				n++
+			}
+		}
+	})
+	if n != 1 {
+		return nil
+	}
+	return val
+}
+
 func capturedInSchedule(v ssa.Value, chain []*ssa.Call, sch *ssa.Function) bool {
 	_, ok := capturedValue(v, chain, sch)
 	return ok
@@ -422,6 +496,10 @@ func capturedInSchedule(v ssa.Value, chain []*ssa.Call, sch *ssa.Function) bool 
 // or the value computed in schedule that v stands for.
 func capturedValue(v ssa.Value, chain []*ssa.Call, sch *ssa.Function) (ssa.Value, bool) {
 	for d := 0; d < 6; d++ {
+		if rv := recvFieldInArmFrame(v); rv != nil {
+			v, chain = rv, nil
+			continue
+		}
 		switch x := v.(type) {
 		case *ssa.Parameter:
 			mapped := false
